@@ -39,6 +39,8 @@ func main() {
 	strict := fl.Bool("strict", false, "errors of Sync/Compact/Backup/Close are violations (C15 runs)")
 	onlyClosed := fl.Bool("onlyclosed", false, "fault images only between Close and the end of the next Open")
 	noReopen := fl.Bool("noreopen", false, "no clean restarts in generated programs")
+	fsname := fl.String("fs", "crashfs", "file system: crashfs | mem | os | osmmap")
+	dir := fl.String("dir", os.TempDir(), "scratch directory for real file systems")
 	in := fl.String("in", "", "program file (ndjson) to replay instead of random programs")
 	fl.Parse(os.Args[2:])
 	t0 := time.Now()
@@ -80,9 +82,7 @@ func main() {
 			if *rseed != 0 {
 				rs = *rseed
 			}
-			r := h.NewRunner(rec, p, *mode, rs, *depth, *twice, *plimit)
-			r.ReadEvery = true
-			r.OnlyClosed = *onlyClosed
+			r := h.NewRunner(rec, p, h.RunParams{Mode: *mode, Seed: rs, Depth: *depth, Twice: *twice, PLimit: *plimit, OnlyClosed: *onlyClosed})
 			if err := r.Run(p); err != nil {
 				rec.Emit(h.Ev{"e": "note", "what": "run ended: " + err.Error()})
 				tot["ended_early"]++
@@ -105,9 +105,59 @@ func main() {
 		tot["events"] = rec.Events
 		tot["recordings"] = rec.Recs
 		writeStats(*stats, tot, samples, t0)
+	case "seq":
+		// sequential map-semantics programs over engineered key sets (C01, C02, C11 quiescent, C14, C16)
+		ks := h.PinSeed(uint32(0x51ed2701 + *seed))
+		rec, err := h.NewRec(*out)
+		if err != nil {
+			fatal(err)
+		}
+		tot := map[string]int{}
+		var samples []interface{}
+		coll := ks.FullCollisions(6)
+		for i := 0; i < *n; i++ {
+			rng := rand.New(rand.NewSource(*seed*1000003 + int64(i)))
+			// key universe: one or two low-bit classes (long chains, overflow buckets) plus full 32-bit collisions
+			var keys []string
+			bits := uint(1 + rng.Intn(3))
+			per := *nkeys / 2
+			keys = append(keys, ks.InClass(bits, uint32(rng.Intn(8)), per)...)
+			keys = append(keys, ks.InClass(bits+1, uint32(rng.Intn(16)), *nkeys-per)...)
+			for _, g := range coll[:2+rng.Intn(3)] {
+				keys = append(keys, g...)
+			}
+			cfg := h.SmallCfg(rng, false)
+			cfg.FS = *fsname
+			cfg.MaxSeg = []uint32{2048, 8192, 65536}[rng.Intn(3)]
+			p := h.GenProgram(rng, fmt.Sprintf("seq-%s-%d-%d", *fsname, *seed, i), cfg, h.GenOpts{
+				Keys: keys, Ops: *nops, BigVals: rng.Intn(3) == 0, Compact: true, Reopen: true, Sync: true, Reads: true, Close: false, Churn: true})
+			var r *h.Runner
+			rp := h.RunParams{Mode: "seq", Seed: *seed + int64(i), Probe: len(keys) > 16, FullEvery: 25}
+			if *fsname == "crashfs" {
+				r = h.NewRunner(rec, p, rp)
+			} else {
+				r = h.NewRunnerOn(rec, p, fmt.Sprintf("%s/seq-%d-%d-%d", *dir, os.Getpid(), *seed, i), rp)
+			}
+			if err := r.Run(p); err != nil {
+				rec.Emit(h.Ev{"e": "note", "what": "run ended: " + err.Error()})
+				tot["ended_early"]++
+			}
+			r.Finish()
+			tot["ops"] += r.Ops
+			tot["programs"]++
+			tot["keys"] += len(keys)
+			if i < 1 {
+				samples = append(samples, h.Ev{"id": p.ID, "cfg": p.Cfg, "keys": len(keys), "first_ops": p.Ops[:12]})
+			}
+		}
+		if err := rec.Close(); err != nil {
+			fatal(err)
+		}
+		tot["events"] = rec.Events
+		tot["recordings"] = rec.Recs
+		writeStats(*stats, tot, samples, t0)
 	case "regress":
 		// replays recorded failing programs with the runner parameters they were found with
-		h.PinSeed(0x9e3779b9)
 		rec, err := h.NewRec(*out)
 		if err != nil {
 			fatal(err)
@@ -119,9 +169,11 @@ func main() {
 		tot := map[string]int{}
 		var samples []interface{}
 		for _, it := range items {
-			r := h.NewRunner(rec, it.Prog, it.Run.Mode, it.Run.Seed, it.Run.Depth, it.Run.Twice, it.Run.PLimit)
-			r.ReadEvery = true
-			r.OnlyClosed = it.Run.OnlyClosed
+			if it.Run.HashSeed == 0 {
+				it.Run.HashSeed = 0x9e3779b9
+			}
+			h.PinSeed(it.Run.HashSeed)
+			r := h.NewRunner(rec, it.Prog, it.Run)
 			if err := r.Run(it.Prog); err != nil {
 				rec.Emit(h.Ev{"e": "note", "what": "run ended: " + err.Error()})
 				tot["ended_early"]++
